@@ -419,6 +419,8 @@ type verifProxy struct {
 	conflicts map[string]int
 	// and: the next n calls of a method fail with a plain storage error, not performed (disk trouble)
 	failures map[string]int
+	// stop the replica before the next call of this method (when the call index is not known in advance)
+	cutBeforeMethod string
 }
 
 var errVerifInjected = fmt.Errorf("injected storage write failure")
@@ -461,7 +463,7 @@ func (p *verifProxy) enter(method, note string) int {
 		p.onCall(idx, method, true)
 		p.inHook = false
 	}
-	if idx == p.cutAt && p.before {
+	if idx == p.cutAt && p.before || p.cutBeforeMethod != "" && method == p.cutBeforeMethod {
 		p.stopped = true
 		panic(verifCrash{at: idx, method: method, before: true})
 	}
